@@ -1,6 +1,9 @@
 import Marwood.Lemmas.Stack
 import Marwood.Proofs.C04
 import Marwood.Lemmas.StackWFToy
+import Marwood.Lemmas.ContResumeToy
+import Marwood.Lemmas.ContResumeCompile
+import Marwood.Lemmas.ContResumeCap
 /-!
 # C05 — first-class continuations: capture, invocation, re-entry
 
@@ -336,66 +339,388 @@ example : ∃ K, WFS Toy.laws (nthR 3) K ∧
 
 end
 
-/-! ## What is missing for the language-level statement (work package "scope refinement", C05 stretch)
+/-! ## The captured prefix is still the live prefix when the receiver returns (`prefix_unwritten`)
 
-The property says: invoking a continuation `k` with `v` — from anywhere, any number of times —
-continues the computation *as if the original `call/cc` expression had just returned `v`*. The
-theorems above are about machine states. A statement over a source-level semantics needs the
-following pieces; (S) exist in spirit, (M) are the missing lemmas, in dependency order.
+`Lemmas/ContResumeWrite.lean`: `step_below` is the write set of one instruction relative to the WF
+frame chain; `Trace.prefix_unwritten` lifts it to executions. -/
 
-(S1) A CPS-style definitional semantics for the scope-skeleton language of C02
-     (`Marwood.Scope.Expr`, interpreter `Marwood.Spec.Scope`) extended by `callcc (f : Expr)`:
-     `evalK : Nat → Chain → Expr → Kont → M Val` with a defunctionalised continuation
-     `Kont = List KFrame`, `KFrame ::= args (done : List Val) (todo : Exprs) (fn : Expr) ρ
-     | fn (vs : List Val) ρ | body (rest : Exprs) ρ | defs x (rest : Defs) (body : Exprs) ρ
-     | set site x ρ | loop … | each …`, a value `Val.cont (κ : Kont)`, and the two clauses
-     `evalK ρ (callcc f) κ = evalK ρ f (fn-frame applying the result to [cont κ] :: κ)` and
-     `applyK (cont κ') [v] κ = resume κ' v` (κ is dropped). In this semantics the property is the
-     definition: `k v` *is* `resume κ v`, and a receiver that returns `v` normally also reaches
-     `resume κ v`. For `callcc`-free terms `evalK ρ e [] = Spec.Scope.eval ρ e` (adequacy, routine).
-(S2) `refinement_partial` (Proofs/C02.lean): variables of the model evaluator and of the scope-chain
-     interpreter agree; its simulation relation (`β`, `StRel`, `ActRel`) is what the heap part of the
-     relation below has to be.
+/-- **the frame property of WF executions**: along a `Trace` from `s` to `s'` during which the frame
+    `D` stays on the ghost frame list — any verified code runs in and above it: nested calls and
+    returns, tail calls (which rewrite the *current* frame only), VARARG, `apply` / `eval` /
+    `call/cc` re-dispatch, stack growth; no continuation invoked — the stack below `D.base` is
+    untouched. -/
+theorem prefix_unwritten {ops : HeapOps H} (cl : CodeLaws ops) {s s' : St H} {P R : List FDesc} {D : FDesc}
+    (hw : WFS cl s (P ++ D :: R)) (htr : Trace ops D.base s s') :
+    s'.stack.cells.take D.base = s.stack.cells.take D.base :=
+  htr.prefix_take hw
 
-(M1) `KRep κ s` — "machine state `s` (stack cells `0..=sp`, `ep`, `bp`, `ip`) represents the
-     continuation `κ`" — by recursion on `κ` over the frame layout of `Vm.Compile`: an `args`
-     frame is the block of already evaluated operands on the stack, a `fn`/`body`/`defs` frame is a
-     return header `argc, ep, ip, bp` (the five cells `ret_of_receiver_frame` reads) whose `ip`
-     points behind the `CALL` in the compiled code of the enclosing expression and whose `ep` is an
-     activation environment related (`ActRel`) to the frame's chain `ρ`.
-     Missing lemma `KRep_ext`: `KRep κ s` depends only on `stack[0..=s.sp]`, `ep`, `bp`, `ip` and the
-     heap relation; it is stable along `Evolves` / `Ext` (T02.3 `location_survives`) and under a
-     collection (C03: a continuation reachable from the roots keeps `ip.0`, `ep` and the referents
-     of its stack copy alive — T05.5).
-(M2) `step_frame` (the machine does not look above `sp`): two states that agree on `acc`, `ep`,
-     `bp`, `ip`, heap and on the stack cells `≤ sp` take the same step and agree again in that
-     sense. This turns "`capture_then_invoke` and `ret_of_receiver_frame_verified` reach states with
-     the same `sp₀`, `ep`, `ip`, `bp`, `acc = v`" into "the rest of the run is the same"; today this
-     is an informal sentence in the note of `ret_of_receiver_frame`.
-(M3) `prefix_unwritten`: along a `Trace` of the receiver (as in `receiver_return_is_invocation`) no
-     cell `≤ sp₀` is written, so at the receiver's `RET` the live prefix equals the captured one
-     (`lib/props/c05.py` lists this as not separately proved). Follows from WF-stack preservation
-     (`step_preserves`) plus a write-set lemma per instruction (`PUSH`, `MOV` to a stack operand,
-     `ENTER`, `CALL`'s frame construction write only at indices `> bp` of the current frame).
-(M4) `compile_callcc_site`: for the operand code `Vm.Compile` emits for `(call/cc f)` at a position
-     with continuation `κ`: if `KRep κ s` holds with `sp₀ = s.sp - 2` when `builtinCallcc` runs, the
-     continuation object `c` of `callcc_captures` satisfies `ContRep κ c` (:= `KRep κ` of the state
-     `invoke_restores` rebuilds from `c`), using `Captures c s sp₀` and `KRep_ext`.
-(M5) `compile_simulates` (one step of compiler correctness, the stage-2/3 ingredient of T01.3): if the
-     code at `ip` is the compilation of `e` in a context related to `ρ`, and `KRep κ s`, then the
-     machine run from `s` and `evalK ρ e κ` reach related outcomes; the `callcc` case is (M4) + the
-     re-executed `CALL` of `callcc_captures`, the application of a `cont` value is
-     `capture_then_invoke` + (M1) + (M2), a normally returning receiver is
-     `ret_of_receiver_frame_verified` + (M3) + (M2); all other cases are the C02 simulation
-     (`Lemmas/EnvRefineStep*.lean`) re-done on the instruction level instead of on `Vm.EnvRun`.
+/-! ## `Resume`: one reference state for "the call/cc expression has just returned `v`"
 
-With (M1)–(M5) the language-level theorem for ONE `call/cc` site reads: for every program `P` of
-the extended skeleton language, `run (compile P)` on the machine and `evalK` agree on the printed
-outcomes and the read / write log, hence escape (`k` invoked inside the receiver's extent),
-re-entry (`k` invoked after the receiver returned) and a stored `k` invoked from a later top-level
-form all continue with `resume κ v`. None of (M1)–(M5) is proved; (M2) and (M3) are the cheapest
-(statements about `Vm.step` only) and would already close the gap the note of `lib/props/c05.py`
-names ("that the stack cells below the receiver's frame are unchanged at return time is not
-separately proved"). -/
+`capturedCont s0`, `Resume s0 v h`: `Lemmas/ContResume.lean`. `LiveEq`: `Lemmas/ContResumeRun.lean`. -/
+
+/-- **T05.2 as one statement about `step`, against `Resume`**: `s0` is the state at the CALL/TCALL
+    that dispatched to `call/cc` (T05.1, `callcc_step`: the continuation object created there is
+    `capturedCont s0`). In ANY state `t` — any depth, any later evaluation, no relation to `s0`
+    required — whose current instruction is a CALL or TCALL of that continuation with `n ≥ 1`
+    arguments, one step yields a state that agrees with `Resume s0 v t.heap` ("the call/cc expression
+    at `s0` has just returned `v`", `v` the last argument, heap as it is NOW) on all registers, the
+    heap, and the live stack `cells.take (sp+1)`.
+
+    `hfit` is the capacity hypothesis: the current stack has room for the captured prefix. It stands
+    for the real-code fact that `Stack` never shrinks (`stack.rs`: only `grow`; `clear` and the error
+    epilogue keep the capacity — seeded changes C05-2 / C07-1 break it and are caught by the deep
+    re-entry scenarios), so a prefix captured from this VM's stack always fits; without it
+    `restore_continuation` panics (`split_at_mut`), which the model reproduces. -/
+theorem invoke_continues_as_if_returned (ops : HeapOps H) {s0 t t1 : St H} {op : Op} {n : Nat}
+    (h0sp : 2 ≤ s0.stack.sp) (h0cap : s0.stack.sp < s0.stack.cells.length)
+    (hr : readOpcode ops t = .ok (op, t1)) (hop : op = .callAcc ∨ op = .tcallAcc)
+    (hk : ops.callee t.heap t.acc = .continuation (capturedCont s0))
+    (hcap : t.stack.sp < t.stack.cells.length) (hsp : 2 ≤ t.stack.sp)
+    (htop : t.stack.cellAt t.stack.sp = .argc n) (hn : 1 ≤ n)
+    (hfit : s0.stack.sp - 2 + 1 ≤ t.stack.cells.length) :
+    ∃ r, step ops t = .ok (r, false) ∧
+      LiveEq r (Resume s0 (t.stack.cellAt (t.stack.sp - 1)) t.heap) ∧
+      r.stack.sp < r.stack.cells.length := by
+  have e1 := (readOpcode_ok hr).2
+  have hclen : (capturedCont s0).stack.cells.length = s0.stack.sp - 2 + 1 := by
+    simp only [capturedCont, List.length_take]; omega
+  obtain ⟨r, hinv, q1, q2, q3, q4, q5, q6, q7, q8⟩ :=
+    invoke_restores t1 (capturedCont s0) n (t.stack.cellAt (t.stack.sp - 1))
+      (by subst e1; exact hcap) hn (by subst e1; exact hsp) (by subst e1; exact htop) (by subst e1; rfl)
+      (by subst e1; rw [hclen]; exact hfit)
+  obtain ⟨_, p2, _⟩ := invokeCont_ok hinv
+  have hstep : step ops t = .ok (r, false) := by
+    unfold step
+    rw [hr]
+    simp only [outcome_bind_ok]
+    have hcal : ops.callee t1.heap t1.acc = .continuation (capturedCont s0) := by subst e1; exact hk
+    rcases hop with rfl | rfl <;> dsimp only
+    · unfold stepCall; rw [hcal]; dsimp only; rw [hinv]; rfl
+    · unfold stepTCall; rw [hcal]; dsimp only; rw [hinv]; rfl
+  have hsp' : r.stack.sp = s0.stack.sp - 2 := q1
+  refine ⟨r, hstep, ⟨hsp', ?_, q7, q3, q4, q5, q6, by rw [q8]; subst e1; rfl⟩, by rw [hsp']; rw [hclen] at p2; omega⟩
+  show r.stack.cells.take (r.stack.sp + 1) = s0.stack.cells.take (s0.stack.sp - 2 + 1)
+  rw [hsp']
+  refine take_of_cellAt (by rw [hclen] at p2; exact p2) (by omega) ?_
+  intro i hi
+  rw [q2 i (by rw [hclen]; exact hi)]
+  unfold Stack.cellAt
+  simp only [capturedCont, List.getElem?_take, hi, if_true]
+
+/-- re-entry within one evaluation needs no capacity hypothesis: the model's stack never shrinks
+    (`step_len_mono`, `Lemmas/ContResumeCap.lean`), so the prefix captured at `s0` fits the stack of
+    every state `t` the run from `s0` reaches (`fits_later`). Across evaluations the epilogues of
+    `Vm/Eval.lean` keep the capacity by definition; that the *real* ones do is what `hfit` stands for. -/
+theorem invoke_within_run_continues_as_if_returned (ops : HeapOps H) {s0 t t1 : St H} {op : Op} {n k : Nat}
+    {bl : Bool} (h0sp : 2 ≤ s0.stack.sp) (h0cap : s0.stack.sp < s0.stack.cells.length)
+    (hrun : runN ops k s0 = .ok (t, bl))
+    (hr : readOpcode ops t = .ok (op, t1)) (hop : op = .callAcc ∨ op = .tcallAcc)
+    (hk : ops.callee t.heap t.acc = .continuation (capturedCont s0))
+    (hcap : t.stack.sp < t.stack.cells.length) (hsp : 2 ≤ t.stack.sp)
+    (htop : t.stack.cellAt t.stack.sp = .argc n) (hn : 1 ≤ n) :
+    ∃ r, step ops t = .ok (r, false) ∧
+      LiveEq r (Resume s0 (t.stack.cellAt (t.stack.sp - 1)) t.heap) ∧
+      r.stack.sp < r.stack.cells.length :=
+  invoke_continues_as_if_returned ops h0sp h0cap hr hop hk hcap hsp htop hn (fits_later h0cap h0sp hrun)
+
+/-- a call/cc whose receiver returns normally: the state after the receiver's RET is — on registers,
+    heap and live stack — `Resume s0 v h` with `v` the returned value and `h` the heap at return time.
+    `s0`: at the CALL that dispatches to `call/cc`; `sc`: after `call/cc` ran (same CALL, `k` passed);
+    `sr`: after the CALL of the receiver; `s`: the receiver's frame at its RET, reached by any verified
+    code that invokes no continuation (`Trace`). This closes T05.3: registers and `sp`
+    (`receiver_return_is_invocation`) *and* the stack cells below the receiver's frame
+    (`prefix_unwritten`). -/
+theorem receiver_return_is_resume {ops : HeapOps H} (cl : CodeLaws ops)
+    {s0 s01 sc sc1 sr s s1 s' : St H} {K : List FDesc} {id lam env : Nat}
+    (hw : WFS cl s0 K)
+    (hr0 : readOpcode ops s0 = .ok (.callAcc, s01))
+    (hc0 : ops.callee s0.heap s0.acc = .builtin id) (hk : ops.builtinKind s0.heap id = .callcc)
+    (hs0 : step ops s0 = .ok (sc, false))
+    (hrc : readOpcode ops sc = .ok (.callAcc, sc1))
+    (hc : ops.callee sc.heap sc.acc = .closure lam env)
+    (hcall : step ops sc = .ok (sr, false))
+    (htr : Trace ops (s0.stack.sp - 1) sr s)
+    (hr : readOpcode ops s = .ok (.ret, s1)) (hb : FrameBase s (s0.stack.sp - 1))
+    (hs : step ops s = .ok (s', false)) :
+    LiveEq s' (Resume s0 s.acc s.heap) := by
+  obtain ⟨_, h2sp, htop0, hkp, ehk, hheap, csp, ck, ctop, cbelow, ccap, cipL, cipO, cep, cbp⟩ :=
+    callcc_step hr0 (.inl rfl) hc0 hk hw.wf.cap hs0
+  -- the state after call/cc is WF with the same frame list
+  have hwsc : WFS cl sc K := by
+    obtain ⟨t, st, ai, e1⟩ := hw.instr hr0
+    have chk := ai.chk
+    cases st <;> simp only [Verify.checkOp] at chk <;> try (exact absurd chk Bool.false_ne_true)
+    have hs0' := hs0
+    unfold step at hs0'
+    rw [hr0] at hs0'
+    simp only [outcome_bind_ok] at hs0'
+    obtain ⟨s2, he, hs0'⟩ := bind_inv hs0'
+    cases hs0'
+    unfold stepCall at he
+    have hcal : ops.callee s01.heap s01.acc = ops.callee s0.heap s0.acc := by subst e1; rfl
+    rw [hcal, hc0] at he
+    exact pres_builtin ai chk e1 he
+  have htopc : sc.stack.cellAt sc.stack.sp = .argc 1 := by rw [csp]; exact ctop
+  obtain ⟨r1, r2, r3, r4, r5, r6⟩ :=
+    receiver_return_is_invocation cl hwsc hrc hc htopc hcall (by rw [csp]; exact htr) hr
+      (by rw [csp]; exact hb) hs
+  -- the receiver's frame and the trace
+  obtain ⟨m, hm, hwsr⟩ := call_closure_desc hwsc hrc hc hcall
+  rw [htopc] at hm; cases hm
+  have hbase : sc.stack.sp - 1 = s0.stack.sp - 1 := by rw [csp]
+  have hpre := htr.prefix_unwritten (cl := cl) [] ⟨sc.stack.sp - 1, _, _, _⟩ K hbase hwsr
+  obtain ⟨P', hws⟩ := htr.stable (cl := cl) [] ⟨sc.stack.sp - 1, _, _, _⟩ K hbase hwsr
+  have hDle := (hws.wf.frames.bases.1 ⟨sc.stack.sp - 1, .envPtr sc.ep, .instrPtr sc.ipL (sc.ipO + 1), sc.bp⟩
+    (by simp)).2
+  simp only at hDle
+  have hscap := hws.wf.cap
+  -- CALL of the receiver pushes two cells
+  have hsr : ∀ i, i ≤ sc.stack.sp → sr.stack.cellAt i = sc.stack.cellAt i := by
+    have e1 := (readOpcode_ok hrc).2
+    have hcall' := hcall
+    unfold step at hcall'
+    rw [hrc] at hcall'
+    simp only [outcome_bind_ok] at hcall'
+    obtain ⟨s2, he, hcall'⟩ := bind_inv hcall'
+    cases hcall'
+    unfold stepCall at he
+    have hcal : ops.callee sc1.heap sc1.acc = ops.callee sc.heap sc.acc := by subst e1; rfl
+    rw [hcal, hc] at he
+    dsimp only at he
+    cases he
+    subst e1
+    intro i hi
+    show ((sc.stack.push _).push _).cellAt i = _
+    rw [push_below _ _ i (by simp only [Stack.push_sp]; omega), push_below _ _ i hi]
+  -- RET keeps `acc` and the heap
+  have hacc : s'.acc = s.acc ∧ s'.heap = s.heap := by
+    have e1 := (readOpcode_ok hr).2
+    have hs' := hs
+    unfold step at hs'
+    rw [hr] at hs'
+    simp only [outcome_bind_ok] at hs'
+    obtain ⟨s2, he, hs'⟩ := bind_inv hs'
+    cases hs'
+    obtain ⟨_, _, _, _, _, _, _, _, _, _, r⟩ := stepRet_ok he
+    subst r
+    subst e1
+    exact ⟨rfl, rfl⟩
+  have hsp' : s'.stack.sp = s0.stack.sp - 2 := by omega
+  refine ⟨hsp', ?_, hacc.1, by rw [r2, cep]; rfl, by rw [r3, cipL]; rfl, by rw [r4, cipO]; rfl,
+    by rw [r5, cbp]; rfl, hacc.2⟩
+  show s'.stack.cells.take (s'.stack.sp + 1) = s0.stack.cells.take (s0.stack.sp - 2 + 1)
+  rw [hsp', r6]
+  refine take_of_cellAt (by omega) (by have := hw.wf.cap; omega) ?_
+  intro i hi
+  rw [hpre i (by omega), hsr i (by omega), cbelow i (by omega)]
+
+/-- **"receiver returns `v`" and "`(k v)`" coincide**: with the hypotheses of
+    `receiver_return_is_resume`, take ANY state `t` about to call the continuation captured at `s0`
+    with last argument `v` = the value the receiver returned, in the heap the receiver left. The state
+    after the receiver's RET and the state after `(k v)` agree on registers, heap and live stack —
+    "a call/cc whose receiver returns normally behaves like an ordinary call" and "as if the call/cc
+    expression had just returned `v`" are the same statement. -/
+theorem receiver_return_equals_invocation {ops : HeapOps H} (cl : CodeLaws ops)
+    {s0 s01 sc sc1 sr s s1 s' t t1 : St H} {K : List FDesc} {id lam env n : Nat} {op : Op}
+    (hw : WFS cl s0 K)
+    (hr0 : readOpcode ops s0 = .ok (.callAcc, s01))
+    (hc0 : ops.callee s0.heap s0.acc = .builtin id) (hk : ops.builtinKind s0.heap id = .callcc)
+    (hs0 : step ops s0 = .ok (sc, false))
+    (hrc : readOpcode ops sc = .ok (.callAcc, sc1))
+    (hc : ops.callee sc.heap sc.acc = .closure lam env)
+    (hcall : step ops sc = .ok (sr, false))
+    (htr : Trace ops (s0.stack.sp - 1) sr s)
+    (hr : readOpcode ops s = .ok (.ret, s1)) (hb : FrameBase s (s0.stack.sp - 1))
+    (hs : step ops s = .ok (s', false))
+    (hrt : readOpcode ops t = .ok (op, t1)) (hop : op = .callAcc ∨ op = .tcallAcc)
+    (hkt : ops.callee t.heap t.acc = .continuation (capturedCont s0))
+    (hcap : t.stack.sp < t.stack.cells.length) (hsp : 2 ≤ t.stack.sp)
+    (htop : t.stack.cellAt t.stack.sp = .argc n) (hn : 1 ≤ n)
+    (hfit : s0.stack.sp - 2 + 1 ≤ t.stack.cells.length)
+    (hv : t.stack.cellAt (t.stack.sp - 1) = s.acc) (hh : t.heap = s.heap) :
+    ∃ r, step ops t = .ok (r, false) ∧ LiveEq s' r := by
+  obtain ⟨_, h2sp, _⟩ := callcc_step hr0 (.inl rfl) hc0 hk hw.wf.cap hs0
+  obtain ⟨r, hstep, hle, _⟩ :=
+    invoke_continues_as_if_returned ops h2sp hw.wf.cap hrt hop hkt hcap hsp htop hn hfit
+  rw [hv, hh] at hle
+  exact ⟨r, hstep, (receiver_return_is_resume cl hw hr0 hc0 hk hs0 hrc hc hcall htr hr hb hs).trans hle.symm⟩
+
+/-! ## The rest of the run after `(k v)` is the run from `Resume`
+
+`step_live_congruence` (`Lemmas/ContResumeRun.lean`, from `step_stack` in `ContResumeStep.lean`):
+`step` is a function of (live stack, registers, heap). Hence: -/
+
+/-- **The property's first sentence as a theorem about executions of the machine model.** `s0` is
+    the state at the CALL/TCALL that dispatched to `call/cc`; `t` is ANY later WF state (any depth, any
+    later evaluation) about to call the continuation captured there with `n ≥ 1` arguments, last one
+    `v`. Then `(k v)` abandons what `t` was doing, and everything the machine does afterwards — any
+    number `m` of further instructions, through further calls, captures, invocations of this or other
+    continuations, up to and including HALT — is, state by state up to stale cells above `sp`, what it
+    does from `Resume s0 v t.heap`: "the call/cc expression at `s0` has just returned `v`".
+    * "operands already evaluated at capture time keep their values": `Resume` has `s0`'s stack prefix;
+    * "mutations made since capture stay visible": `Resume` has `t`'s heap (variables and data live
+      in the heap, T02.2);
+    * "any number of times": nothing is consumed — `hk` can hold again later in the same run.
+    `SideOK` lists the side conditions of `step_live_congruence` along the two runs. -/
+theorem invoke_run_continues {ops : HeapOps H} {cl : CodeLaws ops} (ll : LiveLaws cl)
+    {s0 t t1 : St H} {Kt : List FDesc} {op : Op} {n : Nat}
+    (h0sp : 2 ≤ s0.stack.sp) (h0cap : s0.stack.sp < s0.stack.cells.length)
+    (hwt : WFS cl t Kt)
+    (hr : readOpcode ops t = .ok (op, t1)) (hop : op = .callAcc ∨ op = .tcallAcc)
+    (hk : ops.callee t.heap t.acc = .continuation (capturedCont s0))
+    (hsp : 2 ≤ t.stack.sp) (htop : t.stack.cellAt t.stack.sp = .argc n) (hn : 1 ≤ n)
+    (hfit : s0.stack.sp - 2 + 1 ≤ t.stack.cells.length) :
+    ∃ r, step ops t = .ok (r, false) ∧
+      ∀ (m : Nat) (r' : St H) (bl : Bool),
+        SideOK ops m r (Resume s0 (t.stack.cellAt (t.stack.sp - 1)) t.heap) →
+        runN ops m r = .ok (r', bl) →
+        ∃ r'', runN ops m (Resume s0 (t.stack.cellAt (t.stack.sp - 1)) t.heap) = .ok (r'', bl) ∧
+          LiveEq r' r'' := by
+  obtain ⟨r, hstep, hle, hrcap⟩ :=
+    invoke_continues_as_if_returned ops h0sp h0cap hr hop hk hwt.wf.cap hsp htop hn hfit
+  obtain ⟨Kr, hwr, _⟩ := step_preserves hwt hstep
+  refine ⟨r, hstep, ?_⟩
+  intro m r' bl hside hrun
+  exact runN_live_congruence ll m hwr hle (by show s0.stack.sp - 2 < s0.stack.cells.length; omega) hside hrun
+
+/-- in particular: if the run after `(k v)` halts with value `a` in heap `h`, so does the run from
+    "call/cc has just returned `v`" — same value, same heap -/
+theorem invoke_run_same_result {ops : HeapOps H} {cl : CodeLaws ops} (ll : LiveLaws cl)
+    {s0 t t1 : St H} {Kt : List FDesc} {op : Op} {n : Nat}
+    (h0sp : 2 ≤ s0.stack.sp) (h0cap : s0.stack.sp < s0.stack.cells.length)
+    (hwt : WFS cl t Kt)
+    (hr : readOpcode ops t = .ok (op, t1)) (hop : op = .callAcc ∨ op = .tcallAcc)
+    (hk : ops.callee t.heap t.acc = .continuation (capturedCont s0))
+    (hsp : 2 ≤ t.stack.sp) (htop : t.stack.cellAt t.stack.sp = .argc n) (hn : 1 ≤ n)
+    (hfit : s0.stack.sp - 2 + 1 ≤ t.stack.cells.length) :
+    ∃ r, step ops t = .ok (r, false) ∧
+      ∀ (m : Nat) (r' : St H),
+        SideOK ops m r (Resume s0 (t.stack.cellAt (t.stack.sp - 1)) t.heap) →
+        runN ops m r = .ok (r', true) →
+        ∃ r'', runN ops m (Resume s0 (t.stack.cellAt (t.stack.sp - 1)) t.heap) = .ok (r'', true) ∧
+          r''.acc = r'.acc ∧ r''.heap = r'.heap := by
+  obtain ⟨r, hstep, hall⟩ := invoke_run_continues ll h0sp h0cap hwt hr hop hk hsp htop hn hfit
+  refine ⟨r, hstep, ?_⟩
+  intro m r' hside hrun
+  obtain ⟨r'', h1, h2⟩ := hall m r' true hside hrun
+  exact ⟨r'', h1, h2.acc.symm, h2.heap.symm⟩
+
+/-! ### non-vacuity: a machine that really captures, returns, and is re-entered from a later evaluation
+
+`Lemmas/ContResumeToy.lean`: first evaluation `(call/cc c6)` — entry code 20, receiver `c6` = closure
+of `ENTER; MOVIMM void acc; RET`; states `nthA 0 … nthA 8` (`nthA 3` at the CALL of `call/cc`, `nthA 4`
+after the capture, `nthA 5` in the receiver's prologue, `nthA 7` at its RET, `nthA 8` at HALT). Second
+evaluation `(k "v")` — entry code 21, started from the halted machine; `nthB 3` at the CALL of `k`,
+`nthB 4` after the invocation. -/
+
+section
+open Marwood.Vm.CToy
+
+/-- every hypothesis of `receiver_return_is_resume` holds on the first evaluation, hence its conclusion -/
+example : LiveEq (nthA 8) (Resume (nthA 3) .void (nthA 7).heap) := by
+  obtain ⟨K, hw⟩ := wfA 3 (by omega)
+  exact receiver_return_is_resume CToy.laws (s0 := nthA 3) (s01 := { nthA 3 with ipO := 8 }) (sc := nthA 4)
+    (sc1 := { nthA 4 with ipO := 8 }) (sr := nthA 5) (s := nthA 7) (s1 := { nthA 7 with ipO := 5 })
+    (s' := nthA 8) (id := 9) (lam := 8) (env := 0)
+    hw (by rfl) (by rfl) (by rfl) (by rfl) (by rfl) (by rfl) (by rfl)
+    (.cons (no_cont_A 5 (by omega)) (s1 := nthA 6) (by rfl) (by decide)
+      (.cons (no_cont_A 6 (by omega)) (s1 := nthA 7) (by rfl) (by decide) (.nil _)))
+    (by rfl) ⟨1, by rfl, by decide, by rfl⟩ (by rfl)
+
+/-- the continuation stored by the first evaluation is the one `capturedCont` describes, and the CALL
+    of it in the second evaluation lands on `Resume` -/
+example : CToy.ops.callee (nthB 3).heap (nthB 3).acc = .continuation (capturedCont (nthA 3)) ∧
+    step CToy.ops (nthB 3) = .ok (nthB 4, false) ∧
+    LiveEq (nthB 4) (Resume (nthA 3) (.opaque "v") (nthB 3).heap) := by
+  refine ⟨by rfl, by rfl, ?_⟩
+  obtain ⟨r, h1, h2, _⟩ := invoke_continues_as_if_returned CToy.ops (s0 := nthA 3) (t := nthB 3)
+    (t1 := { nthB 3 with ipO := 8 }) (op := .callAcc) (n := 1)
+    (by decide) (by decide) (by rfl) (.inl rfl) (by rfl) (by decide) (by decide) (by rfl) (by decide) (by decide)
+  have e : step CToy.ops (nthB 3) = .ok (nthB 4, false) := by rfl
+  rw [e] at h1
+  cases h1
+  exact h2
+
+/-- every hypothesis of `invoke_run_same_result` holds on the second evaluation (`m = 1`: the HALT that
+    follows), hence: the run from "`(call/cc c6)` has just returned `"v"`" halts with value `"v"` -/
+example : ∃ r'', runN CToy.ops 1 (Resume (nthA 3) (.opaque "v") (nthB 3).heap) = .ok (r'', true) ∧
+    r''.acc = .opaque "v" := by
+  obtain ⟨K, hw⟩ := wfB 3 (by omega)
+  obtain ⟨r, h1, h2⟩ := invoke_run_same_result CToy.liveLaws (s0 := nthA 3) (t := nthB 3)
+    (t1 := { nthB 3 with ipO := 8 }) (op := .callAcc) (n := 1)
+    (by decide) (by decide) hw (by rfl) (.inl rfl) (by rfl) (by decide) (by rfl) (by decide) (by decide)
+  have e : step CToy.ops (nthB 3) = .ok (nthB 4, false) := by rfl
+  rw [e] at h1
+  cases h1
+  have hhalt : step CToy.ops (nthB 4) = .ok ({ nthB 4 with ipO := 9 }, true) := by rfl
+  have hside : SideOK CToy.ops 1 (nthB 4)
+      (Resume (nthA 3) ((nthB 3).stack.cellAt ((nthB 3).stack.sp - 1)) (nthB 3).heap) := by
+    refine ⟨?_, ?_, ?_⟩
+    · intro off h
+      cases h
+    · intro c hc
+      cases hc
+    · intro r1 r2 q _
+      rw [hhalt] at q
+      cases q
+  obtain ⟨r'', g1, g2, _⟩ := h2 1 { nthB 4 with ipO := 9 } hside (by rfl)
+  exact ⟨r'', g1, g2⟩
+
+end
+
+/-! ## The compile side: where `s0` sits in compiled code
+
+`compile_callcc_site` (`Lemmas/ContResumeCompile.lean`; T01.4 `application_operand_order` for one
+operand): the compiler model emits for `(call/cc e)` — under either name, in operand or tail position —
+exactly `<code of e>; PUSH; PUSHIMM argc 1; <code of the operator>; CALL|TCALL`. So the state `s0` of
+the theorems above is "at that CALL, the value of `e` and `argc 1` on top of what the enclosing
+expressions have pushed", and `Resume s0 v h` is "behind that CALL, the two cells popped, `acc = v`":
+the state in which the application `(call/cc e)` has evaluated to `v`. -/
+
+open Marwood Marwood.Spec in
+/-- non-vacuity: `(g x (call/cc f))` in tail position — `x` is evaluated and pushed before the capture
+    (an operand "already evaluated at capture time"), the `call/cc` site is `MOV f; PUSH; PUSHIMM argc1;
+    MOV call/cc; CALL`, then the pending application continues: `PUSH; PUSHIMM argc2; MOV g; TCALL` -/
+example :
+    (match compileExpr 10 {} ⟨[], []⟩ 1 true
+      (Datum.ofList [.sym ['g'], .sym ['x'], Datum.ofList [.sym callccName, .sym ['f']]]) with
+     | .ok (_, code) => code.map (fun (b : BC) => match b with | BC.op o => some o | _ => none)
+     | .error _ => []) =
+    [some .mov, none, none, some .pushAcc,
+     some .mov, none, none, some .pushAcc, some .pushImm, none, some .mov, none, none, some .callAcc,
+     some .pushAcc, some .pushImm, none, some .mov, none, none, some .tcallAcc] := by decide +kernel
+
+/-! ## What is proved now, and what is still missing for the language-level statement
+
+Proved (this file + `Lemmas/ContResume*.lean`), all about the machine model `Vm.step` that lock-step
+replay ties to `run.rs`:
+* (M3) `prefix_unwritten` — closed (`step_below`, `Trace.prefix_unwritten`), and with it T05.3 in full:
+  `receiver_return_is_resume`, `receiver_return_equals_invocation`.
+* (M2) `step_frame` — closed as `step_live_congruence` / `runN_live_congruence`, under the explicit
+  side conditions `LiveLaws` (CLOSURE / ENTER read live cells), `BpLive` (a `BasePointerOffset` source
+  operand is live — not implied by the bytecode verifier, which does not look at source offsets) and
+  the capacity condition of `SideOK` (the stack never shrinks).
+* The property's first sentence as ONE theorem about executions: `invoke_run_continues`,
+  `invoke_run_same_result`, relative to the reference state `Resume s0 v h`.
+
+Still missing:
+* The CALL case only: for `call/cc` in *tail* position (TCALL) `capturedCont` / `callcc_step` /
+  `invoke_continues_as_if_returned` hold as stated, but `receiver_return_is_resume` is stated for CALL
+  (after a TCALL the receiver replaces the caller's frame and returns to the caller's caller; the state
+  after its RET equals the state one instruction — the RET that follows the TCALL — after `Resume`).
+* `hfit` is a theorem for re-entry within one evaluation (`invoke_within_run_continues_as_if_returned`,
+  from `step_len_mono`); across evaluations it is a hypothesis. `SideOK`'s capacity clause (about the
+  continuations invoked *later* in the two runs, relative to the capacity of the reference run, which
+  starts with `s0`'s capacity — `LiveEq` ignores capacity, so the reference state may be padded) is a
+  hypothesis at each invocation; discharging it needs a heap law that continuation objects are only
+  created by `newCont` from the stack of this machine.
+* (M4) `compile_callcc_site` gives the *shape* of the emitted code; the step from "this code sequence is
+  in the code object at `ip`" to machine states (i.e. running `<code of e>` leaves the value of `e` in
+  `acc` and the stack as it was — compiler correctness for `e`, T01.3 stage 2/3) is not proved, so
+  "`Resume s0 v h` is the state in which the application has evaluated to `v`" is by the calling
+  convention theorems (`builtin_call_pops`, `ret_of_receiver_frame`), not by a theorem over source terms.
+* (M1), (M5): a CPS definitional semantics with `call/cc` and its simulation by the compiled code
+  (`KRep`, `compile_simulates`). Not done; the language-level reading of the theorems above is still
+  "the machine continues from `Resume`", not a statement over source terms. -/
 
 end Marwood.Proofs.C05
